@@ -1,7 +1,427 @@
+// Package c35: proposed EVM transactions have consecutive nonces and no duplicates.
+//
+// Every case is a history of operations run on the real txnpool/common.TXPool, the real
+// validator/increment.IncrementValidator and a real solo ledger (ledgerkit): three funded EVM
+// senders submit EIP-155 transactions (built and signed with go-ethereum as
+// integrationtest/common.go does) next to ordinary Ontology transactions; submissions go through
+// the real stateful validator and may be delivered to the pool late; blocks are committed by the
+// ledger (which executes the EVM transactions) and the block events reach the validator and the
+// pool in order, late, or not at all.  After every operation the result and the complete state
+// are recorded for the Coq model (Corr/C35.v); the property is checked directly on every proposal.
 package c35
 
-import "verif/harness/hx"
+import (
+	"encoding/json"
+	"fmt"
+	"sort"
+	"strings"
+
+	"github.com/ontio/ontology/common"
+	"github.com/ontio/ontology/core/types"
+	"github.com/ontio/ontology/errors"
+	tc "github.com/ontio/ontology/txnpool/common"
+
+	"verif/harness/hx"
+)
 
 func init() { hx.Register("C35", Run) }
 
-func Run(c *hx.Ctx) { c.CoqModule("Corr.C35") }
+// Op is one scripted operation (self-contained, so a script replays without the generator).
+type Op struct {
+	K   string  `json:"k"`
+	Tx  *TxRef  `json:"tx,omitempty"`
+	Txs []TxRef `json:"txs,omitempty"`
+	I   int     `json:"i,omitempty"`
+	VH  uint32  `json:"vh,omitempty"`
+	VN  uint64  `json:"vn,omitempty"`
+	BC  bool    `json:"bc,omitempty"`
+	H   uint32  `json:"h,omitempty"`
+	G   uint64  `json:"g,omitempty"`
+}
+
+type Script struct {
+	KeySeed int64  `json:"key_seed"`
+	MaxBlk  int    `json:"max_blocks"`
+	MaxTx   uint   `json:"max_tx_in_block"`
+	Profile string `json:"profile"`
+	Ops     []Op   `json:"ops"`
+}
+
+type runner struct {
+	*env
+	script       Script
+	steps        []string
+	blocks       map[uint32]*types.Block
+	lastProposal []*mtx
+	ivq, poolq   []uint32 // undelivered block events
+	nProposed    int
+	maxRun       int
+	nReplaced    int
+	dumpEvery    int
+}
+
+func (r *runner) step(op, obs string, withDump bool) {
+	if withDump {
+		r.steps = append(r.steps, fmt.Sprintf("S1 (%s) (%s) %s", op, obs, r.dump()))
+	} else {
+		r.steps = append(r.steps, fmt.Sprintf("S0 (%s) (%s)", op, obs))
+	}
+}
+
+func (r *runner) fail(class, clause string, got, want interface{}) {
+	r.c.Fail(class, clause, r.script, got, want)
+}
+
+// add performs AddTxList and checks the replacement clause on the implementation.
+func (r *runner) add(m *mtx, vh uint32, vn uint64) {
+	if !(vh <= r.height() && (m.onChain == 0 || m.onChain > vh)) {
+		r.envOK = false // outside what the stateful validator guarantees: the on-chain clause is not checked afterwards
+		r.c.Count("add:outside-validator-guarantee")
+	}
+	before := r.slots()
+	var code errors.ErrCode
+	panicked, msg := hx.Recover(func() {
+		code = r.pool.AddTxList(&tc.VerifiedTx{Tx: m.tx, VerifiedHeight: vh, Nonce: vn})
+	})
+	r.c.Eval()
+	op := fmt.Sprintf("CAdd %s %d %d", r.coqTx(m), vh, vn)
+	if panicked {
+		r.fail("panic:AddTxList", "AddTxList panicked", msg, nil)
+		r.step(op, "BPanic", true)
+		return
+	}
+	r.c.Count("add:" + codeName(code))
+	if m.tx.IsEipTx() {
+		key := slotKey{m.tx.Payer, uint64(m.tx.Nonce)}
+		after := r.slots()
+		for k, oldH := range before {
+			newH, still := after[k]
+			if !still || newH == oldH {
+				continue
+			}
+			old := r.byHash[oldH]
+			if k != key || newH != m.tx.Hash() || old == nil {
+				r.fail("replace:foreign-slot", "a slot changed occupant without a submission for it", fmt.Sprint(k.nonce), nil)
+				continue
+			}
+			r.nReplaced++
+			r.c.Count("add:replaced")
+			if !(m.tx.GasPrice > old.tx.GasPrice) {
+				r.fail("replace:not-higher-price", "a replacement happened without a higher gas price",
+					map[string]uint64{"old": old.tx.GasPrice, "new": m.tx.GasPrice}, "new > old")
+			}
+			if !(m.tx.GasPrice > old.tx.GasPrice*101/100) {
+				r.fail("replace:rule", "replacement below the 101/100 threshold",
+					map[string]uint64{"old": old.tx.GasPrice, "new": m.tx.GasPrice}, "new > old*101/100")
+			}
+		}
+	}
+	r.step(op, "BCode "+codeName(code), true)
+}
+
+func (r *runner) refs(l []TxRef) []*mtx {
+	var out []*mtx
+	for _, x := range l {
+		out = append(out, r.tx(x))
+	}
+	return out
+}
+
+func rawTxs(l []*mtx) []*types.Transaction {
+	out := make([]*types.Transaction, 0, len(l))
+	for _, m := range l {
+		out = append(out, m.tx)
+	}
+	return out
+}
+
+func verrName(err error) string {
+	switch {
+	case err == nil:
+		return "VOk"
+	case strings.HasPrefix(err.Error(), "can not do increment validation"):
+		return "VBelowBase"
+	case strings.HasPrefix(err.Error(), "tx duplicated"):
+		return "VDuplicated"
+	case strings.HasPrefix(err.Error(), "wrong nonce"):
+		return "VWrongNonce"
+	}
+	return "(* " + strings.ReplaceAll(err.Error(), "*)", "") + " *) VBelowBase"
+}
+
+func (r *runner) nonceObs() string {
+	var s []string
+	for i := 0; i < nSenders; i++ {
+		s = append(s, fmt.Sprintf("(%d, %d)", i+1, r.acctNonce(i)))
+	}
+	return hx.CoqList(s)
+}
+
+// propose is the sequence of consensus/solo makeBlock and consensus/vbft validHeight+makeProposal.
+func (r *runner) propose() {
+	var out []*mtx
+	panicked, msg := hx.Recover(func() {
+		height := r.height()
+		validHeight := height
+		start, end := r.iv.BlockRange()
+		if height+1 == end {
+			validHeight = start
+		} else {
+			r.iv.Clean()
+		}
+		txs, _ := r.pool.GetTxPool(true, validHeight)
+		nonceCtx := make(map[common.Address]uint64)
+		for _, e := range txs {
+			if err := r.iv.Verify(e.Tx, validHeight, nonceCtx); err == nil {
+				out = append(out, r.byHash[e.Tx.Hash()])
+			}
+		}
+	})
+	r.c.Eval()
+	if panicked {
+		r.fail("panic:propose", "GetTxPool/Verify panicked", msg, nil)
+		r.step("CPropose", "BPanic", true)
+		return
+	}
+	r.nProposed++
+	// ---- the property, checked on the implementation ----
+	seen := map[common.Uint256]bool{}
+	next := map[int]uint64{}
+	for i := 0; i < nSenders; i++ {
+		next[i] = r.acctNonce(i)
+	}
+	run := map[int]int{}
+	for _, m := range out {
+		h := m.tx.Hash()
+		if seen[h] {
+			r.fail("proposal:duplicate-hash", "a transaction appears twice in the proposal", m.ref, nil)
+		}
+		seen[h] = true
+		if r.envOK {
+			onLedger, _ := r.kit.Ledger.IsContainTransaction(h)
+			if onLedger || m.onChain != 0 {
+				r.fail("proposal:already-on-chain", "a proposed transaction is already in a block of the chain", m.ref, fmt.Sprintf("in block %d", m.onChain))
+			}
+		}
+		if m.ref.S >= 0 {
+			if uint64(m.tx.Nonce) != next[m.ref.S] {
+				r.fail("proposal:nonce-run", "the sender's proposed transactions are not a run of consecutive nonces from the account nonce",
+					map[string]interface{}{"sender": m.ref.S, "nonce": m.tx.Nonce}, fmt.Sprintf("expected %d", next[m.ref.S]))
+			}
+			next[m.ref.S] = uint64(m.tx.Nonce) + 1
+			run[m.ref.S]++
+			if run[m.ref.S] > r.maxRun {
+				r.maxRun = run[m.ref.S]
+			}
+		}
+	}
+	r.c.Count(fmt.Sprintf("proposal:size-%s", bucket(len(out))))
+	r.lastProposal = out
+	var ids []string
+	for _, m := range out {
+		ids = append(ids, fmt.Sprint(m.id))
+	}
+	r.step("CPropose", "BTxs "+hx.CoqList(ids), true)
+}
+
+func bucket(n int) string {
+	switch {
+	case n == 0:
+		return "0"
+	case n <= 2:
+		return "1-2"
+	case n <= 5:
+		return "3-5"
+	}
+	return "6+"
+}
+
+func (r *runner) exec(op Op) {
+	r.c.Count("op:" + op.K)
+	switch op.K {
+	case "val":
+		m := r.tx(*op.Tx)
+		rsp := r.validate(m)
+		r.c.Eval()
+		r.c.Count(fmt.Sprintf("validate:%d", rsp.ErrCode))
+		if rsp.ErrCode == errors.ErrNoError {
+			r.pend = append(r.pend, pending{m, rsp.Height, rsp.Nonce})
+		}
+	case "deliver":
+		if op.I >= len(r.pend) {
+			return
+		}
+		p := r.pend[op.I]
+		r.pend = append(r.pend[:op.I], r.pend[op.I+1:]...)
+		r.add(p.m, p.height, p.nonce)
+	case "add":
+		r.add(r.tx(*op.Tx), op.VH, op.VN)
+	case "get":
+		var valid []*tc.VerifiedTx
+		var old []*types.Transaction
+		panicked, msg := hx.Recover(func() { valid, old = r.pool.GetTxPool(op.BC, op.H) })
+		r.c.Eval()
+		opS := fmt.Sprintf("CGet %s %d", hx.CoqBool(op.BC), op.H)
+		if panicked {
+			r.fail("panic:GetTxPool", "GetTxPool panicked", msg, nil)
+			r.step(opS, "BPanic", true)
+			return
+		}
+		var vt []*types.Transaction
+		for _, e := range valid {
+			vt = append(vt, e.Tx)
+		}
+		r.c.Count(fmt.Sprintf("get:expired-%s", bucket(len(old))))
+		r.step(opS, fmt.Sprintf("BGet %s %s", r.ids(vt), r.ids(old)), true)
+	case "commit":
+		ms := r.refs(op.Txs)
+		b, err := r.kit.MakeBlock(rawTxs(ms))
+		if err == nil {
+			err = r.kit.AddMadeBlock(b)
+		}
+		r.c.Eval()
+		ok := err == nil
+		if ok {
+			h := b.Header.Height
+			for _, m := range ms {
+				if m.onChain == 0 {
+					m.onChain = h
+				}
+			}
+			r.chain = append(r.chain, ms)
+			r.blocks[h] = b
+			r.ivq = append(r.ivq, h)
+			r.poolq = append(r.poolq, h)
+		}
+		r.c.Count(fmt.Sprintf("commit:ok-%v", ok))
+		r.step("CCommit "+r.coqTxs(ms), fmt.Sprintf("BCommit %s %s", hx.CoqBool(ok), r.nonceObs()), false)
+	case "ivadd":
+		b := r.blocks[op.H]
+		if b == nil {
+			return
+		}
+		r.iv.AddBlock(b)
+		r.c.Eval()
+		s, e := r.iv.BlockRange()
+		r.step(fmt.Sprintf("CIvAdd %d %s", op.H, r.coqTxs(r.chain[op.H])), fmt.Sprintf("BRange %d %d", s, e), true)
+	case "ivclean":
+		r.iv.Clean()
+		r.step("CIvClean", "BUnit", true)
+	case "poolclean":
+		ms := r.refs(op.Txs)
+		panicked, msg := hx.Recover(func() {
+			r.pool.CleanCompletedTransactionList(rawTxs(ms), op.H)
+			r.pool.CleanStaledEIPTx(op.H)
+		})
+		r.c.Eval()
+		opS := fmt.Sprintf("CPoolClean %d %s", op.H, r.coqTxs(ms))
+		if panicked {
+			r.fail("panic:CleanCompletedTransactionList", "clean-up panicked", msg, nil)
+			r.step(opS, "BPanic", true)
+			return
+		}
+		r.step(opS, "BUnit", true)
+	case "rmbelow":
+		panicked, msg := hx.Recover(func() { r.pool.RemoveTxsBelowGasPrice(op.G) })
+		r.c.Eval()
+		opS := fmt.Sprintf("CRemoveBelow %d", op.G)
+		if panicked {
+			r.fail("panic:RemoveTxsBelowGasPrice", "RemoveTxsBelowGasPrice panicked", msg, nil)
+			r.step(opS, "BPanic", true)
+			return
+		}
+		r.step(opS, "BUnit", true)
+	case "remain":
+		txs := r.pool.Remain()
+		r.c.Eval()
+		var ids []uint64
+		for _, t := range txs {
+			ids = append(ids, r.hashID(t.Hash()))
+		}
+		sort.Slice(ids, func(i, j int) bool { return ids[i] < ids[j] })
+		var s []string
+		for _, id := range ids {
+			s = append(s, fmt.Sprint(id))
+		}
+		r.step("CRemain", "BTxs "+hx.CoqList(s), true)
+	case "propose":
+		r.propose()
+	case "verifylist":
+		ms := r.refs(op.Txs)
+		ctx := make(map[common.Address]uint64)
+		var res []string
+		for _, m := range ms {
+			res = append(res, verrName(r.iv.Verify(m.tx, op.H, ctx)))
+		}
+		r.c.Eval()
+		r.step(fmt.Sprintf("CVerifyList %s %d", r.coqTxs(ms), op.H), "BVerify "+hx.CoqList(res), false)
+	default:
+		panic("bad op " + op.K)
+	}
+}
+
+func (r *runner) do(op Op) {
+	r.script.Ops = append(r.script.Ops, op)
+	r.exec(op)
+}
+
+func newRunner(c *hx.Ctx, s Script, caseNo int) *runner {
+	e, err := newEnv(c, s.KeySeed, caseNo, s.MaxBlk, s.MaxTx)
+	if err != nil {
+		panic(err)
+	}
+	return &runner{env: e, script: Script{KeySeed: s.KeySeed, MaxBlk: s.MaxBlk, MaxTx: s.MaxTx, Profile: s.Profile}, blocks: map[uint32]*types.Block{}}
+}
+
+func (r *runner) finish(kind string) {
+	mb := r.maxBlk
+	if mb < 0 {
+		mb = 0
+	}
+	term := fmt.Sprintf("(CHist %d %d [1; 2; 3]\n  %s)", mb, r.maxTx, joinSteps(r.steps))
+	r.c.Case(term, r.script)
+	r.c.Count("case:" + kind)
+	if r.maxRun >= 2 || r.nReplaced > 0 {
+		b, _ := json.Marshal(r.script)
+		r.c.Nontrivial(string(b))
+	}
+	if r.nProposed > 0 && r.maxRun >= 2 {
+		r.c.Sample(map[string]interface{}{"profile": r.script.Profile, "ops": len(r.script.Ops), "proposals": r.nProposed,
+			"longest_sender_run": r.maxRun, "replacements": r.nReplaced, "max_blocks": r.maxBlk, "max_tx_in_block": r.maxTx})
+	}
+	r.close()
+}
+
+func runScript(c *hx.Ctx, s Script, caseNo int, kind string) {
+	r := newRunner(c, s, caseNo)
+	for _, op := range s.Ops {
+		r.do(op)
+	}
+	r.finish(kind)
+}
+
+func Run(c *hx.Ctx) {
+	c.CoqModule("Corr.C35")
+	var s Script
+	if c.ReplayInput(&s) && len(s.Ops) > 0 {
+		runScript(c, s, 0, "replay")
+		return
+	}
+	n := 0
+	for _, raw := range c.CorpusInputs() {
+		var cs Script
+		if json.Unmarshal(raw, &cs) == nil && len(cs.Ops) > 0 {
+			runScript(c, cs, n, "corpus")
+			n++
+		}
+	}
+	for _, sc := range fixedScripts() {
+		runScript(c, sc, n, "fixed")
+		n++
+	}
+	total := c.N(70, 600)
+	for i := 0; i < total; i++ {
+		generate(c, n, i)
+		n++
+	}
+}
